@@ -988,6 +988,32 @@ theorem crs_preserved (g : GeoBox) :
 
 /-! ## 6. GCP geoboxes: views compose with an arbitrary pixel→world function -/
 
+/-- Model selection of the GCP fit: the largest of the three families (3, 4, 9 terms) whose
+number of unknowns does not exceed the number of control points — in particular exactly nine
+points (a 3×3 grid) get the bi-quadratic, which then interpolates them. -/
+theorem fit_kind_spec (n : Nat) :
+    (fitKind n = .error .valueError ↔ n < 3) ∧
+    (∀ k, fitKind n = .ok k → k ≤ n ∧ (k = 3 ∨ k = 4 ∨ k = 9) ∧
+      ∀ k', (k' = 3 ∨ k' = 4 ∨ k' = 9) → k' ≤ n → k' ≤ k) := by
+  unfold fitKind
+  refine ⟨?_, ?_⟩
+  · split
+    · simp [*]
+    · split
+      · simp; omega
+      · split <;> simp <;> omega
+  · intro k hk
+    split at hk
+    · simp at hk
+    · split at hk
+      · simp only [Except.ok.injEq] at hk; subst hk
+        refine ⟨by omega, by simp, ?_⟩; intro k' h _; omega
+      · split at hk
+        · simp only [Except.ok.injEq] at hk; subst hk
+          refine ⟨by omega, by simp, ?_⟩; intro k' h _; omega
+        · simp only [Except.ok.injEq] at hk; subst hk
+          refine ⟨by omega, by simp, ?_⟩; intro k' h _; omega
+
 /-- Every pixel contract above lifts through the GCP mapping `P` (any function): if a view
 operation relates the affine triples by `pix2wld g' p = pix2wld g (T p)`, the GCP geoboxes
 built on the same mapping satisfy the same relation.  (`GCPGeoBox.__getitem__/pad/pad_wh/
